@@ -14,7 +14,7 @@ REGISTRY = {
         claim=(
             "Structural clauses only (static, all call sites / all CFG paths of the current tree): Fs confinement (exact who-may-call rule over resolved callees), "
             "probe-order table of find_import vs the documented order, no suffix-replacing candidate construction, for_import/load-path must-reach rules, "
-            "plain-CSS classification and syntax-by-extension tables. Not a statement about search results on concrete directory trees."
+            "plain-CSS classification and syntax-by-extension tables, and every key used on the import cache / files_seen is the path find_import returned (the cache cannot bypass the search). Not a statement about search results on concrete directory trees."
         ),
         explanation=(
             "Static analysis of the type-checked program (MIR with resolved callees) of /repo's current tree. Decided clauses: "
@@ -36,8 +36,8 @@ REGISTRY["C08"] = dict(
         "Structural clauses: (a) all 82 entries of UNIT_CONVERSION_TABLE, extracted statically from the initialiser, equal the CSS ratios and the table is "
         "reciprocal/transitive/closed; (b) Unit::kind, the table's row groups, comparable()'s decision structure (summarised per CFG path and evaluated over all 34x33 unit pairs), "
         "KNOWN_COMPATIBILITIES and From<String>/Display agree; (c) every Number::convert / conversion_factor().unwrap() site is guarded on every path by comparable()/wrappers on the same pair; "
-        "(d) conversion direction and the unit-selection ladder of the four add/sub implementations; (e) visit_number rejects complex units. "
-        "Not decided: arithmetic results for sampled magnitudes, multiply_units cancellation algebra."
+        "(d) conversion direction (from = own unit, to = the other operand's / result's unit), the unit-selection ladder of the four add/sub implementations, and the dimensional direction of the two unit-cancellation sites in multiply_units (value divided by conversion_factor(denominator, numerator)); (e) visit_number rejects complex units. "
+        "Not decided: arithmetic results for sampled magnitudes, which units multiply_units cancels (only the direction of the factor)."
     ),
     explanation=(
         "Clauses C08-a..e as in DESIGN.md §3 C08, decided on MIR facts of the current tree: the table initialiser is evaluated abstractly (no execution), "
@@ -84,7 +84,7 @@ REGISTRY["C20"] = dict(
     technique="static analysis of main's MIR: flag->builder table extraction with polarity, value-flow from the library result to the single output write, error-handler shape (eprintln + non-zero exit), `?` propagation of I/O results",
     claim=(
         "Structural clauses over `main`: flag/builder pairs with polarity equal the documented map and the fully built Options reaches from_path/from_string; the only output write is write_all of exactly the Ok payload, "
-        "to stdout or the OUTPUT file; the Err path prints the error with eprintln! and exits with a non-zero constant before any write; I/O results propagate with `?`. "
+        "to stdout or the OUTPUT file; the Err path prints the error with eprintln! and exits with a non-zero constant before any write; I/O results propagate with `?`, and the sink is written directly (a BufWriter/LineWriter would need a propagated flush on every path after the write). "
         "NOT decided: process-level behaviour as such (clap parsing, OS errors, what the library returns)."
     ),
     explanation="Clauses of DESIGN.md §3 C20, decided on the MIR of grass::main and its closures in the current tree. NOT decided: clap's parsing, OS-level behaviour, equality of CLI and library output as executed.",
@@ -97,7 +97,7 @@ REGISTRY["C09"] = dict(
     claim=(
         "Structural clauses: (a) the variant-pair matrix of Value::eq is symmetric and reflexive-capable, and Value::not_equals is never constant-true where == can be true; (b) no PartialEq impl of a value type overrides `ne`, "
         "visit_bin_op maps Equal/NotEqual to eq/ne; (c) every key comparison in SassMap and index() is Value's ==/not_equals; (d) SassMap's vector is only pushed/retained/iterated and insert pushes only after the search missed; "
-        "(e) visit_map inserts only after the duplicate test and duplicates are Err. NOT decided: reflexivity/transitivity through fuzzy number comparison and unit conversion."
+        "(e) visit_map inserts only after the duplicate test and duplicates are Err; (f) number equality is key-induced: fuzzy_equals returns true only under k(a) == k(b) for one per-operand expression k (a bucket partition, hence transitive) and Number's == is exactly fuzzy_equals. NOT decided: transitivity across unit conversion (1in == 96px == ...), which rests on floating-point values."
     ),
     explanation="Clauses C09-a..e of DESIGN.md §3, decided on MIR/HIR facts of the current tree. NOT decided: equivalence laws through fuzzy numeric comparison, values of comparisons.",
     assumptions=TRUSTED,
@@ -109,7 +109,7 @@ REGISTRY["C17"] = dict(
     claim=(
         "Decision-structure clauses: every Empty result of MediaQuery::merge is control-dependent on this_type == other_type, on exactly one query being negated and on the subset test; "
         "double negation with different types is Unrepresentable; merge_media_queries maps Empty/Unrepresentable/Success to skip/None/push over the cartesian product; "
-        "visit_media_rule drops an empty intersection before creating a node and keeps unmergeable queries nested. NOT decided: truth-table correctness of the full seven-way split."
+        "visit_media_rule drops an empty intersection before creating a node and keeps unmergeable queries nested. (c) the outcome category (Empty / Unrepresentable / Success) of merge, extracted as predicate valuations per result site, equals a transliteration of dart-sass's merge on all 4608 combinations of conjunction, modifier, type (none/all/two concrete) and subset relations. NOT decided: which modifier/type/conditions a Success carries."
     ),
     explanation="Clauses of DESIGN.md §3 C17 on MIR facts of the current tree. NOT decided: that the merged query is the logical intersection for all environments.",
     assumptions=TRUSTED,
@@ -121,7 +121,7 @@ REGISTRY["C05"] = dict(
     claim=(
         "Encoding and visibility clauses: (a) every write to Serializer.buffer / the local quoting buffer is an ASCII constant, a whole str, fmt output or the in-order copy of a source byte, no cutting operation is ever applied, "
         "and in the two byte-copy loops a byte >= 0x80 is always copied unchanged with nothing interleaved (safety of the two from_utf8_unchecked); (b) the unsafe inventory is exactly the three reviewed blocks; "
-        "(c) BOM/@charset are inserted exactly under (non-ASCII, allows_charset[, compressed]) and nothing else reads allows_charset; (d) invisible selectors/statements are filtered before any write. "
+        "(c) BOM/@charset are inserted exactly under (non-ASCII, allows_charset[, compressed]) and nothing else reads allows_charset; (d) invisible selectors/statements are filtered before any write; (e) in quoted strings the escaped byte set is exactly the C0 controls except tab (decision blocks evaluated for all 256 byte values) and a hex escape is followed by a space before a hex digit, space or tab. "
         "NOT decided: balanced braces/strings/comments, absence of Sass-only syntax in values, re-parse idempotence."
     ),
     explanation="Clauses C05-a..d of DESIGN.md §3 on MIR/HIR facts of the current tree. NOT decided: well-formedness of the emitted text as CSS, fixed-point behaviour.",
@@ -133,7 +133,7 @@ REGISTRY["C02"] = dict(
     technique="static analysis: source->sink flow from unordered/interning-ordered traversals to order-sensitive consumers; statics/ambient-input inventory (who-may-call); struct-literal freshness of per-compilation state",
     claim=(
         "Every source of non-determinism is enumerated and confined: (a) hash-collection iteration and (b) ordered traversal of BTree collections keyed by Identifier (interning order) must end in an order-insensitive consumer; "
-        "(c) every static is an immutable table, an identity counter whose value is only stored as an id, or the thread-local interner; (d) randomness/time/env/address reads occur only in random(), unique-id() and the pointer hash; "
+        "(c) every static is an immutable table, an identity counter whose value is only stored as an id, or the thread-local interner, and the interner is only used through get_or_intern/resolve (no query that reveals what earlier compilations interned); (d) randomness/time/env/address reads occur only in random(), unique-id() and the pointer hash; "
         "(e) Visitor/CodeMap/Serializer are built fresh per entry-point call from arguments or empty values. NOT decided: that these are the only channels; byte-identical output under concurrency as such."
     ),
     explanation="Clauses C02-a..e of DESIGN.md §3 on MIR/HIR facts of the current tree; known findings list the traversals whose order reaches output. NOT decided: allocator-address channels (Arc::ptr_eq), unique-id() distinctness, concurrency as executed.",
@@ -145,7 +145,7 @@ REGISTRY["C06"] = dict(
     technique="static analysis: who-may-read rule for the style flag (Options::is_compressed / Options.style) and for serializer entry points called with the user's Options, over the resolved call graph",
     claim=(
         "Style-flag confinement: outside serializer.rs/lib.rs no function reads the output style, passes a non-constant style to Value::to_css_string/Number::to_string, or serializes text for SassScript with the caller's Options; "
-        "the compressed comment-retention predicate is exactly `/*!`. Each function that does is a separate finding. NOT decided: that expanded and compressed outputs are equivalent CSS."
+        "the compressed comment-retention predicate is exactly `/*!`; compressed colour spellings (short hex only when red, green and blue are all doubled digits; names only when not longer) denote the same colour. Each function that does is a separate finding. NOT decided: that expanded and compressed outputs are equivalent CSS."
     ),
     explanation="Clauses of DESIGN.md §3 C06 on MIR facts of the current tree; the evaluation-time readers of the style flag on the pinned tree are listed as known findings, each with an input whose SassScript-visible result differs between styles. NOT decided: CSS equivalence of the two outputs.",
     assumptions=TRUSTED,
@@ -157,7 +157,7 @@ REGISTRY["C15"] = dict(
     claim=(
         "Table and constructor clauses: (a) all 148 CSS named colours (independent table in spec/) are in name_to_rgba with alpha 0xFF, `transparent` is rgba(0,0,0,0), rgba_to_name is a right inverse; "
         "(b) Color's fields are private, struct literals occur only in new_rgba/new_hsla/new, the raw constructors are called only from the reviewed set, and from_rgba/from_rgba_fn/from_hwb/from_hsla clamp every parameter "
-        "(from_hsla's alpha obligation is checked at its callers); (c) compressed output writes a name only if it fits and 3-digit hex only under can_use_short_hex. "
+        "(from_hsla's alpha obligation is checked at its callers); (c) compressed output writes a name only if it fits and 3-digit hex only under can_use_short_hex, which requires is_symmetrical_hex of red, green and blue together; (d) interval analysis: every hue handed to hue_to_rgb lies in [-1, 2] turns (it corrects by one turn at most), with `Number % 360` shown to be the non-negative modulo. "
         "NOT decided: HSL/HWB round trips and the colour-function laws (numeric)."
     ),
     explanation="Clauses C15-a..c of DESIGN.md §3 on MIR/HIR facts of the current tree and spec/css_named_colors.json. NOT decided: numeric conversions, rounding at .5 boundaries, colour-function identities.",
@@ -182,7 +182,7 @@ REGISTRY["C12"] = dict(
     claim=(
         "Structural clauses: (a) Public/Limited/Prefixed member views forward get/remove/insert only under their predicate and list keys consistently; (b) @forward show/hide lists reach LimitedMapView on top of the prefixed view; "
         "(c) sass:math/meta/selector/color members equal their global aliases; (d) execute() evaluates only on a cache miss and registers the module, load_module brackets execute with the active-module set and errors on a loop; "
-        "(e) every namespaced member reference built by the parser passed assert_public. NOT decided: `with` configuration semantics, diamond/emission order, namespace shadowing."
+        "(e) every namespaced member reference built by the parser passed assert_public; (f) load_module receives a configuration built from the rule's own `with` clause or an empty one at every call outside @forward (a plain `@use` never inherits the enclosing module's configuration). NOT decided: the rest of `with` configuration semantics, diamond/emission order, namespace shadowing."
     ),
     explanation="Clauses C12-a..e of DESIGN.md §3 on MIR facts of the current tree. NOT decided: configuration semantics, CSS emission order across modules.",
     assumptions=TRUSTED + ["spec/builtin_aliases.json transcribed from the Sass documentation"],
@@ -194,7 +194,7 @@ REGISTRY["C16"] = dict(
     claim=(
         "Crash and printing-table clauses: (a) every unit conversion in value/calculation.rs is guarded on the same pair on every path; (b) the full truth table of parenthesize_calculation_rhs equals "
         "`a o (b . c)` needing parentheses under real arithmetic, and the serializer uses it (right) and precedence() (left); (c) a negative right operand is negated and flips +/-; "
-        "(d) unsimplified min/max/clamp and +/- operations are built only after verify_compatible_numbers. NOT decided: numeric equivalence of source and output expressions."
+        "(d) unsimplified min/max/clamp and +/- operations are built only after verify_compatible_numbers; (e) every conversion in the folding code goes from the operand's own unit to the unit of the operand it is compared with. NOT decided: numeric equivalence of source and output expressions."
     ),
     explanation="Clauses of DESIGN.md §3 C16 on MIR facts of the current tree. NOT decided: that simplification preserves the computed value for all inputs.",
     assumptions=TRUSTED,
@@ -205,7 +205,7 @@ REGISTRY["C18"] = dict(
     technique="static analysis: HIR override inventory of the three parser impls; table extraction of the lexer's newline normalisation and of CssParser::parse_at_rule; who-may-construct rule for Identifier; guard rules for is_plain_css",
     claim=(
         "Shared-table clauses: (a) the StylesheetParser/BaseParser methods each front end overrides are exactly the reviewed hook sets and is_indented/is_plain_css return the fixed constants; "
-        "(b) TokenLexer::next maps exactly FF, CR, CRLF to one `\\n` and advances the byte position by the source width; (c) Identifier is only built by from_str, which replaces `_` by `-`, and scope maps are keyed by it; "
+        "(b) TokenLexer::next maps exactly FF, CR, CRLF to one `\\n`, consumes the LF after CR with one call and advances the byte position by 1 on exactly the paths that consumed it; (c) Identifier is only built by from_str, every Identifier built there wraps a normalised get_or_intern, scope maps are keyed by it, and the @forward prefix (a plain String matched against normalised names) is read with normalisation at every AstForwardRule construction; "
         "(d) CssParser::parse_at_rule rejects exactly dart-sass's set of Sass-only at-rules and every listed Sass-only construct has an is_plain_css() guard leading to Err. "
         "NOT decided: that SCSS and indented inputs produce identical CSS."
     ),
@@ -218,7 +218,7 @@ REGISTRY["C03"] = dict(
     technique="static analysis: pairing / must-pass-through on non-Err CFG paths for discovered save-restore instances; who-may-write rule for the variable-slot cache; table extraction (precedence) and guard dominance (short-circuit, if(), binding order)",
     claim=(
         "Structural discipline clauses: (a,b) every discovered temporary override of scopes, flags, env, content, configuration and import path (34 instances frozen from the pinned tree) is restored on every non-Err exit; "
-        "(c) only the lookup/insert functions write Scopes.last_variable_index and every scope pop / variable removal resets it; (d) BinaryOp::precedence follows the Sass order, and/or evaluate the right operand only under the "
+        "(c) only the lookup/insert functions write Scopes.last_variable_index, every scope pop / variable removal resets it, and every insertion into a scope map first refreshes the cache to that (name, index), resets it, or targets index 0; (d) BinaryOp::precedence follows the Sass order, and/or evaluate the right operand only under the "
         "right truthiness, if() evaluates exactly one branch; (e) arguments are evaluated before the environment switch, verify precedes binding, positional binding precedes defaults precedes the body. "
         "NOT decided: that the values computed are the specified ones; !global/!default semantics; closure capture; @content scope."
     ),
@@ -242,8 +242,8 @@ REGISTRY["C10"] = dict(
     level="other",
     technique="static analysis: must-reach rule (a field must have an error-producing reader / a consulted map must have a writer), visibility-filter dominance shared with C05-d, no-effect-operation-on-temporary detector",
     claim=(
-        "Three structural clauses only: (a) Extension/ExtendRule.is_optional must be read by a branch whose mandatory edge can produce an Err (`extending a missing target is an error unless !optional`); "
-        "(b) placeholder selectors are filtered before anything is written (C05-d); (c) the media contexts consulted while extending are recorded by some writer, and `get_mut(k).replace(v)` on temporaries are reported (undecided). "
+        "Four structural clauses only: (a) Extension/ExtendRule.is_optional must be read by a branch whose mandatory edge can produce an Err (`extending a missing target is an error unless !optional`); "
+        "(b) placeholder selectors are filtered before anything is written (C05-d); (c) the media contexts consulted while extending are recorded by some writer, and `get_mut(k).replace(v)` on temporaries are reported (undecided); (d) register_selector records the rule under every simple selector and always descends into the inner list of a selector pseudo, independent of what the index already holds. "
         "NOT decided: everything that makes @extend interesting - that rewritten selectors match the right elements, second-law specificity, trimming, media scoping semantics."
     ),
     explanation="Clauses of DESIGN.md §3 C10 on MIR facts of the current tree. Both (a) and the media-context part of (c) are violated on the pinned tree (missing features) and listed as known findings with reproducing inputs. NOT decided: matching semantics of extended selectors.",
